@@ -51,6 +51,12 @@ this obligation says nothing overwrites it afterwards). -/
 theorem handoff_applied_after_profile_defaults :
     Facts.c12_loadSeedsBeforeHandoff = 1 ∧ Facts.c12_spawnSeedsBeforeSync = 1 := by decide
 
+/-- Statement order in `(*Session).MigrateProfile`, regenerated from c2/session.go: the hand-off is
+marshalled (`writeDeviceInfo(infoMigrate, …)`) only after the Session lock is held, after the loop that
+waits for the pending work and after the new process has connected to the pipe — so an order that was
+still in flight when the migration started is part of what the new process receives. -/
+theorem migrate_snapshot_after_drain : Facts.c12_migrateSnapshotAfterDrain = 1 := by decide
+
 /-- The six kind constants are pairwise distinct and ordered around `infoRefresh` the way the
 guards `t > infoRefresh` / `t != infoMigrate` need: registration, refresh and migration carry proxy
 data; settings-sync and migration-completion do not; only migration carries identity and keys. -/
